@@ -25,6 +25,7 @@ import (
 	"errors"
 	"fmt"
 	"net/netip"
+	"sync"
 
 	"lukechampine.com/blake3"
 )
@@ -54,11 +55,23 @@ func PSKHash(psk []byte) (h [16]byte) {
 	return
 }
 
+// small caches: a history re-derives the same few keys thousands of times
+var (
+	cacheMu   sync.Mutex
+	aeadCache = map[string]cipher.AEAD{}
+	blkCache  = map[string]cipher.Block{}
+)
+
 // SessionAEAD derives the per-session AEAD.
 func SessionAEAD(psk []byte, sid uint64) cipher.AEAD {
 	material := make([]byte, 0, len(psk)+8)
 	material = append(material, psk...)
 	material = binary.BigEndian.AppendUint64(material, sid)
+	cacheMu.Lock()
+	defer cacheMu.Unlock()
+	if g, ok := aeadCache[string(material)]; ok {
+		return g
+	}
 	key := make([]byte, len(psk))
 	blake3.DeriveKey(key, sessionCtx, material)
 	blk, err := aes.NewCipher(key)
@@ -69,14 +82,27 @@ func SessionAEAD(psk []byte, sid uint64) cipher.AEAD {
 	if err != nil {
 		panic(err)
 	}
+	if len(aeadCache) > 4096 {
+		clear(aeadCache)
+	}
+	aeadCache[string(material)] = g
 	return g
 }
 
 func block(key []byte) cipher.Block {
+	cacheMu.Lock()
+	defer cacheMu.Unlock()
+	if b, ok := blkCache[string(key)]; ok {
+		return b
+	}
 	b, err := aes.NewCipher(key)
 	if err != nil {
 		panic(err)
 	}
+	if len(blkCache) > 1024 {
+		clear(blkCache)
+	}
+	blkCache[string(key)] = b
 	return b
 }
 
@@ -375,6 +401,13 @@ func ParseSocksAddr(b []byte) (Addr, error) {
 // Fill writes a deterministic pseudo-random byte stream derived from seed into b (xorshift64*).
 func Fill(b []byte, seed uint64) {
 	x := seed | 1
+	for len(b) >= 8 {
+		x ^= x >> 12
+		x ^= x << 25
+		x ^= x >> 27
+		binary.LittleEndian.PutUint64(b, x*2685821657736338717)
+		b = b[8:]
+	}
 	for i := range b {
 		x ^= x >> 12
 		x ^= x << 25
